@@ -246,7 +246,7 @@ func truncate(s string, n int) string {
 var commonTrusted = []string{
 	"go/packages + go/ssa (x/tools v0.29.0) faithfully represent /repo's working tree; the verified text is that SSA, rebuilt every run",
 	"memory model of DESIGN.md 3.3: per-field heap arrays, immutable byte strings (element stores into []byte rejected), fresh allocation, interfaces as references with a dynamic type tag",
-	"Go int treated as a mathematical integer (no overflow); slice capacity treated as length",
+	"Go int treated as a mathematical integer (no overflow); cap() of a slice is an arbitrary number not below its length",
 	"solver answers of z3 4.8.12, z3 5.1.0 and cvc5 1.0.3 (first definite answer in quick tier; in the thorough tier the other solvers get a grace period of 10 s + 10x the time of the first answer to contradict it, and a contradiction is reported as a disagreement)",
 	"panic-freedom of functions whose contract has no `safety` clause is assumed at their own sites",
 }
